@@ -128,6 +128,9 @@ func (c *Int) Ident() string {
 			return "false"
 		case 1:
 			return "true"
+		case -1:
+			// -1 is true in two's complement notation (e.g. `i1 -1`, `i1 s0x1`).
+			return "true"
 		default:
 			panic(fmt.Errorf("invalid integer value of boolean type; expected 0 or 1, got %d", x))
 		}
